@@ -705,6 +705,59 @@ def sch_freshpick(ctx: Ctx) -> RuleResult:
     return r
 
 
+def sch_poolexit(ctx: Ctx) -> RuleResult:
+    """The pool entered by the scheduler is left on EVERY exit, exceptional ones included (pairing rule).
+
+    ThreadPoolExecutor.__exit__ waits for the running work: when it is only reached on the normal exit, a failing call returns
+    while the nodes it started are still running - they overlap the next call on the same DAG (its sequential nodes, its
+    max_concurrency) and the worker threads stay alive until the exception object is collected."""
+    r = RuleResult("SCH-POOLEXIT")
+    m = model(ctx)
+    f = m.fn
+    in_with = any(isinstance(n, (ast.With, ast.AsyncWith)) and any(it.context_expr is m.pool_ctor for it in n.items) for n in iter_own_nodes(f.node))
+    if in_with:
+        r.ob(True, {"pool managed by": "with"})
+        return r
+    exits = [n for n in iter_own_nodes(f.node) if isinstance(n, ast.Call) and isinstance(n.func, ast.Attribute)
+             and n.func.attr in ("__exit__", "shutdown") and dotted(n.func.value) == m.pool_var]
+    in_finally = False
+    for t in iter_own_nodes(f.node):
+        if isinstance(t, ast.Try) and any(x is e for st in t.finalbody for x in ast.walk(st) for e in exits) \
+                and any(m.loop_stmt is x for st in t.body for x in ast.walk(st)):
+            in_finally = True
+    r.ob(in_finally, {"pool variable": m.pool_var, "released by": [norm_src(e) for e in exits], "on every exit (finally / with)": in_finally})
+    if not exits:
+        raise Undecided("the scheduler's pool is neither managed by 'with' nor released explicitly (form not modelled)")
+    if not in_finally:
+        r.violate("scheduler: the thread pool is released on the normal exit only", f.loc(exits[0]),
+                  "when a node fails the exception leaves the scheduler without ThreadPoolExecutor.__exit__: the call returns while nodes it "
+                  "started are still running; the next call on the DAG runs alongside them (a sequential node is not alone, more than "
+                  "max_concurrency nodes of the DAG run) - it does not behave like a call on a freshly built DAG", norm_src(exits[0]))
+    return r
+
+
+def sch_onlydispatch(ctx: Ctx) -> RuleResult:
+    """Node functions are entered from the scheduler only: nothing else in the package calls ExecNode.execute."""
+    r = RuleResult("SCH-ONLYDISPATCH")
+    m = model(ctx)
+    ex = ctx.method("ExecNode", "execute")
+    n = 0
+    for f in ctx.funcs():
+        if f.module.name.endswith("_twzsa_control"):
+            continue
+        for c in iter_own_nodes(f.node):
+            if isinstance(c, ast.Attribute) and c.attr == "execute" and m._is_execute_ref(f, c):
+                n += 1
+                ok = f.qualname == m.fn.qualname
+                r.ob(ok, {"reference to ExecNode.execute in": f.short})
+                if not ok:
+                    r.violate(f"{f.short}: runs a node outside the scheduler ({norm_src(c)})", f.loc(c),
+                              "the node runs on the calling thread whatever its resource, outside max_concurrency and the sequential "
+                              "protocol, and without the activation test", norm_src(c))
+    r.require(n >= 3, f"only {n} references to ExecNode.execute found (the scheduler has three dispatch arms)")
+    return r
+
+
 def sch_stalepick(ctx: Ctx) -> RuleResult:
     """After a node has run on the scheduler's own thread (an unbounded time), finished pooled nodes are collected before the
     next selection - otherwise a node whose dependencies finished meanwhile is not among the candidates."""
@@ -1172,5 +1225,5 @@ RULES = {
     "SCH-SEQ-PRE": sch_seq_pre, "SCH-SEQ-POST": sch_seq_post, "SCH-PRIO": sch_prio, "SCH-FRESHPICK": sch_freshpick,
     "SCH-WAITSITES": sch_waitsites, "SCH-WAITMODE": sch_waitmode, "SCH-GUARD": sch_guard, "SCH-MIXWAIT": sch_mixwait,
     "SCH-PROGRESS": sch_progress, "SCH-EXIT": sch_exit, "SCH-EMPTYWAIT": sch_emptywait, "SCH-DEACT": sch_deact,
-    "SCH-ACTIVE": sch_active, "SCH-POOLSIZE": sch_poolsize, "SCH-TASKDONE": sch_taskdone, "SCH-BIDICT": sch_bidict, "SCH-STALEPICK": sch_stalepick,
+    "SCH-ACTIVE": sch_active, "SCH-POOLSIZE": sch_poolsize, "SCH-TASKDONE": sch_taskdone, "SCH-BIDICT": sch_bidict, "SCH-STALEPICK": sch_stalepick, "SCH-ONLYDISPATCH": sch_onlydispatch, "SCH-POOLEXIT": sch_poolexit,
 }
